@@ -93,7 +93,9 @@ def execute(p, cfg, group, kind, batch, outs, training, squash, masks, Ud, Zd, e
     infos = None
     if any_mask or any_eda:
         infos = {}
-        for i, a in enumerate(ids):
+        # the infos dict is a mapping: its key order must not matter. Evaluation-mode calls list the agents in reverse
+        # order (IPPO samples in both modes); violations seen there carry the tag "infos-reordered"
+        for i, a in (list(reversed(list(enumerate(ids)))) if not training else list(enumerate(ids))):
             d = {}
             if masks[i] is not None:
                 d["action_mask"] = masks[i][0].copy() if batch == "u" else masks[i].copy()
@@ -207,7 +209,7 @@ def execute(p, cfg, group, kind, batch, outs, training, squash, masks, Ud, Zd, e
                 if defined.any():
                     # env-defined rows are exempt from the mask; judge them as allowed
                     M = None if M is None else np.where(defined[:, None], 1, M)
-            ppo.judge_discrete(p, "IPPO", sid, a, R, batch, M, lg, mk_rp(i), kindtag + tagx, mode)
+            ppo.judge_discrete(p, "IPPO", sid, a, R, batch, M, lg, mk_rp(i), kindtag + tagx + ("/infos-reordered" if (infos is not None and not training) else ""), mode)
 
 
 def _eda_for(form, box, R, sids, masks, shift, batch):
